@@ -24,7 +24,9 @@ func genC17(t *rapid.T) RoutingCase {
 	c := RoutingCase{}
 	c.Router = rapid.SampledFrom([]string{model.Curly, model.JSR311}).Draw(t, "router")
 	cfg := gen.Common()
-	cfg.Conds = false // the statement's fragment has no If-conditions
+	// If-conditions: a route whose condition rejects the request is not routable for it; all
+	// probes of one URL carry the same headers, so "a request to that same URL" is well defined
+	cfg.Conds = rapid.Bool().Draw(t, "conds")
 	if thorough() {
 		cfg.MaxServices, cfg.MaxRoutes = 6, 12
 	}
@@ -60,7 +62,13 @@ func genC17(t *rapid.T) RoutingCase {
 		if !model.CleanPath(r.Path) {
 			continue
 		}
-		c.Reqs = append(c.Reqs, model.ReqSpec{Method: "GET", Path: r.Path})
+		u := model.ReqSpec{Method: "GET", Path: r.Path}
+		for _, h := range r.Headers {
+			if strings.HasPrefix(h.K, "X-Cond-") {
+				u.Headers = append(u.Headers, h)
+			}
+		}
+		c.Reqs = append(c.Reqs, u)
 	}
 	return c
 }
@@ -89,6 +97,35 @@ func withoutOptions(m map[string]bool) map[string]bool {
 		}
 	}
 	return o
+}
+
+// d20 is the signature of known finding D20: the OPTIONS filter's list contains every routable
+// method, and each surplus method belongs to a route whose template matches the URL and one
+// of whose If-conditions is false for the probe's headers.
+func d20(tb model.TableSpec, u model.ReqSpec, routable, listed map[string]bool) bool {
+	for m := range routable {
+		if !listed[m] {
+			return false
+		}
+	}
+	hidden := map[string]bool{}
+	for _, s := range tb.Services {
+		for _, r := range s.Routes {
+			if len(r.Conds) > 0 && !model.CondsHold(r.Conds, u) && model.MatchPath(s.Full(r), u.Path).Match != model.N {
+				hidden[r.Method] = true
+			}
+		}
+	}
+	surplus := 0
+	for m := range listed {
+		if !routable[m] {
+			if !hidden[m] {
+				return false
+			}
+			surplus++
+		}
+	}
+	return surplus > 0
 }
 
 // d12 is the signature of known finding D12: the OPTIONS filter lists every routable method
@@ -185,7 +222,7 @@ func checkC17(c RoutingCase) (vs []*Violation) {
 			routable := map[string]bool{}
 			outs := map[string]harness.Outcome{}
 			for _, m := range methods {
-				o := harness.Do(plain, recA, model.ReqSpec{Method: m, Path: u.Path}, harness.ViaDispatch, strconv.Itoa(i)+m)
+				o := harness.Do(plain, recA, model.ReqSpec{Method: m, Path: u.Path, Headers: u.Headers}, harness.ViaDispatch, strconv.Itoa(i)+m)
 				outs[m] = o
 				if o.Panic != "" {
 					vs = append(vs, viol("", "%s %s: Dispatch panicked: %s", where, m, o.Panic))
@@ -210,7 +247,7 @@ func checkC17(c RoutingCase) (vs []*Violation) {
 				}
 			}
 			// the OPTIONS filter
-			oo := harness.Do(filt, recB, model.ReqSpec{Method: "OPTIONS", Path: u.Path}, harness.ViaDispatch, strconv.Itoa(i)+"opt")
+			oo := harness.Do(filt, recB, model.ReqSpec{Method: "OPTIONS", Path: u.Path, Headers: u.Headers}, harness.ViaDispatch, strconv.Itoa(i)+"opt")
 			if oo.Panic != "" {
 				vs = append(vs, viol("", "%s: OPTIONS with the filter panicked: %s", where, oo.Panic))
 				continue
@@ -224,7 +261,9 @@ func checkC17(c RoutingCase) (vs []*Violation) {
 			for name, got := range map[string]map[string]bool{"Allow": allow, "Access-Control-Allow-Methods": acam} {
 				g := withoutOptions(got)
 				if setString(g) != setString(want) {
-					if d12(c.Table, u.Path, want, g) {
+					if d20(c.Table, u, want, g) {
+						vs = append(vs, viol("D20", "%s: OPTIONS filter lists %s=[%s], routable are [%s]: methods of routes whose If-condition rejects the request are included", where, name, setString(g), setString(want)))
+					} else if d12(c.Table, u.Path, want, g) {
 						vs = append(vs, viol("D12", "%s: OPTIONS filter lists %s=[%s], routable are [%s]: methods of a less specific WebService whose root also matches are included", where, name, setString(g), setString(want)))
 					} else {
 						vs = append(vs, viol("", "%s: OPTIONS filter lists %s=[%s], but the methods not answered 404/405 are [%s]", where, name, setString(g), setString(want)))
@@ -236,7 +275,7 @@ func checkC17(c RoutingCase) (vs []*Violation) {
 				if m == "OPTIONS" {
 					continue
 				}
-				o2 := harness.Do(filt, recB, model.ReqSpec{Method: m, Path: u.Path}, harness.ViaDispatch, strconv.Itoa(i)+m)
+				o2 := harness.Do(filt, recB, model.ReqSpec{Method: m, Path: u.Path, Headers: u.Headers}, harness.ViaDispatch, strconv.Itoa(i)+m)
 				if o2.Key() != outs[m].Key() {
 					vs = append(vs, viol("", "%s %s: outcome changes when the OPTIONS filter is installed: {%s} vs {%s}", where, m, outs[m].Key(), o2.Key()))
 				}
